@@ -20,7 +20,8 @@ var c05Ops = []string{
 	"insert 1", "insert 2", "insert 5", "insert null-key",
 	"update 1", "update range", "delete 1", "delete 2",
 	"arm-next-version-put",
-	"insert other-table", // a second s3db table on the same connection (SQLite begins each table lazily)
+	"arm-next-retire-request", // the PUT root/merged/<parent> of the next commit fails (the code swallows retire errors)
+	"insert other-table",      // a second s3db table on the same connection (SQLite begins each table lazily)
 }
 
 type c05Case struct {
@@ -132,9 +133,14 @@ func c05RunSeq(res *engine.Result, c c05Case, ops []int) ([]string, bool) {
 	}
 	must(cl.Exec("commit"))
 	armed := false
+	armedRetire := false
 	cl.H.Fault = func(rq *engine.Req) (engine.FaultMode, error) {
 		if armed && isVersionPut(*rq) {
 			armed = false
+			return engine.FailBefore, engine.ErrTransport
+		}
+		if armedRetire && rq.Op == "PUT" && strings.HasPrefix(rq.Key, "p/") && strings.Contains(rq.Key, "/root/merged/") {
+			armedRetire = false
 			return engine.FailBefore, engine.ErrTransport
 		}
 		return engine.FaultNone, nil
@@ -219,8 +225,25 @@ func c05RunSeq(res *engine.Result, c c05Case, ops []int) ([]string, bool) {
 			armed = true
 			nontrivial = true
 			continue
+		case "arm-next-retire-request":
+			armedRetire = true
+			nontrivial = true
+			continue
 		}
 		res.Trans++
+		if serr != nil && last {
+			// whatever made the statement / COMMIT fail: the bucket must not hold a new version of this table
+			from := logStart
+			if op == "commit" {
+				from = txLogStart
+			}
+			for _, rq := range w.B.LogSince(from) {
+				if isVersionPut(rq) && (rq.Outcome == "ok" || rq.Outcome == "applied-fault") {
+					res.Violate("failed-statement-published-a-version:"+strings.Fields(op)[0], "%s failed (%v) but its version object %s is in the bucket: other openers see a transaction that this connection rolled back [%s]", op, serr, rq.Key, where)
+					break
+				}
+			}
+		}
 		if op != "begin" && op != "commit" && op != "rollback" {
 			nc, sc := engine.ErrClass(nerr), engine.ErrClass(serr)
 			if nc != "ok" || sc != "ok" {
